@@ -1,40 +1,90 @@
 import Spine.Dispatch
+/-! Line-protocol driver of `Spine.Disp` (C01, C03). The harness first describes the world it built from the real
+    code (`clear`, then one `loc` line per local feature and one `rem` line per feature every peer announces),
+    then runs histories: `reset r u e` (defect flags: resultOnResult, unbindDisjunct, entRemovalAnyPeer) followed by
+    ops. Answer of an op: the outputs grouped by connection, ` W` appended when a local feature's data was set. -/
 open Spine.Disp
-def parseAddr (s : String) : List Nat × Nat := match s.splitOn "/" with
-  | [e, f] => ((e.splitOn ".").filterMap String.toNat?, f.toNat!)
+
+def parseEnt (s : String) : List Nat := (s.splitOn ".").filterMap String.toNat?
+def parseAddr (s : String) : Addr := match s.splitOn "/" with
+  | [e, f] => (parseEnt e, f.toNat!)
   | _ => ([], 0)
-def showAddr (a : List Nat × Nat) : String := ".".intercalate (a.1.map toString) ++ "/" ++ toString a.2
+def parseList (s : String) : List Nat := if s == "-" then [] else (s.splitOn ",").filterMap String.toNat?
+def parseOps (s : String) : List (Nat × Bool) :=
+  if s == "-" then [] else (s.splitOn ",").filterMap fun t => match t.splitOn ":" with
+    | [f, w] => some (f.toNat!, w == "1")
+    | _ => none
+def parseRole : String → Option Role
+  | "client" => some .client | "server" => some .server | "special" => some .special | _ => none
+def parseCls : String → Option Cls
+  | "read" => some .read | "reply" => some .reply | "notify" => some .notify | "write" => some .write
+  | "call" => some .call | "result" => some .result | _ => none
+def showAddr (a : Addr) : String := ".".intercalate (a.1.map toString) ++ "/" ++ toString a.2
 def showOut : Out → String
   | .reply r f s d => s!"reply {r} {f} {showAddr s} {showAddr d}"
   | .result r e s d => s!"result {r} {e} {showAddr s} {showAddr d}"
   | .readReq f s d => s!"readReq {f} {showAddr s} {showAddr d}"
+  | .notify f s d => s!"notify {f} {showAddr s} {showAddr d}"
   | .panic => "panic"
-def parseCls : String → Cls
-  | "read" => .read | "reply" => .reply | "notify" => .notify | "write" => .write | "call" => .call | _ => .result
-def nmFds : List Nat := [901, 902, 903]
-def locals : List LF := [
-  { ent := [0], feat := 0, typ := 100, role := .special, fds := nmFds, ops := [(901, false), (902, false)], nm := true },
-  { ent := [1], feat := 1, typ := 1, role := .server, fds := [1, 2], ops := [(1, true), (2, false)] },
-  { ent := [1], feat := 2, typ := 2, role := .server, fds := [3], ops := [(3, true)] },
-  { ent := [1], feat := 3, typ := 1, role := .client, fds := [1, 2], ops := [] },
-  { ent := [2], feat := 1, typ := 4, role := .server, fds := [4], ops := [(4, false)] } ]
-def remotes : List RF := [⟨[0], 0, nmFds⟩, ⟨[1], 1, [1, 2]⟩, ⟨[1], 2, [3]⟩, ⟨[1], 3, [1, 2, 3, 4]⟩]
-def initW : W :=
-  { loc := locals,
-    peers := fun _ => { feats := remotes, msgNum := 4, req := [(2, ([0], 0), 1000), (3, ([0], 0), 902)] },
-    binds := [(([1], 1), 1, ([1], 1)), (([1], 2), 2, ([1], 2))] }
-partial def loop (h : IO.FS.Stream) (out : IO.FS.Stream) (w : W) : IO Unit := do
+
+def showOuts (outs : List (Nat × Out)) : String :=
+  let peers := (outs.map (·.1)).eraseDups.mergeSort (· ≤ ·)
+  if outs.isEmpty then "-" else
+  " | ".intercalate (peers.map fun q => s!"{q}: " ++ "; ".intercalate ((outs.filter (·.1 = q)).map fun o => showOut o.2))
+
+structure Conf where
+  loc : List LF := []
+  rem : List RF := []
+
+def freshPeer (c : Conf) : Peer := { feats := c.rem, msgNum := 3, req := [(2, nmAddr, 1000), (3, nmAddr, 902)] }
+
+def initW (c : Conf) (cfg : Cfg) : W :=
+  { loc := c.loc, peers := fun _ => ⟨[], 0, []⟩, binds := [], subs := [], cfg := cfg, fresh := freshPeer c }
+
+def flag (s : String) : Bool := s == "1"
+
+def parseOp (toks : List String) : Option Op :=
+  match toks with
+  | "dg" :: p :: src :: dst :: ctr :: ref :: cls :: ack :: fn :: rest =>
+    (parseCls cls).map fun c =>
+      .dg p.toNat! ⟨parseAddr src, parseAddr dst, ctr.toNat!, if ref == "-" then none else ref.toNat?, c, ack == "1", fn.toNat!,
+        rest.contains "bad"⟩
+  | "bind" :: p :: c :: s :: typ :: ctr :: ack :: _ => some (.call p.toNat! ctr.toNat! (ack == "1") (.bind (parseAddr c) (parseAddr s) typ.toNat!))
+  | "unbind" :: p :: c :: s :: ctr :: ack :: _ => some (.call p.toNat! ctr.toNat! (ack == "1") (.unbind (parseAddr c) (parseAddr s)))
+  | "sub" :: p :: c :: s :: typ :: ctr :: ack :: _ => some (.call p.toNat! ctr.toNat! (ack == "1") (.sub (parseAddr c) (parseAddr s) typ.toNat!))
+  | "entrem" :: p :: e :: ctr :: ack :: _ => some (.entRem p.toNat! (parseEnt e) ctr.toNat! (ack == "1"))
+  | "entadd" :: p :: e :: ctr :: ack :: _ => some (.entAdd p.toNat! (parseEnt e) ctr.toNat! (ack == "1"))
+  | ["drop", p] => some (.drop p.toNat!)
+  | ["conn", p] => some (.conn p.toNat!)
+  | _ => none
+
+partial def loop (h : IO.FS.Stream) (out : IO.FS.Stream) (c : Conf) (w : W) : IO Unit := do
   let line ← h.getLine
   if line.isEmpty then out.flush; return ()
-  let (w', ans) : W × String := match line.trimAscii.toString.splitOn " " with
-    | ["dg", p, src, dst, ctr, ref, cls, ack, fn] =>
-      let d : Dg := ⟨parseAddr src, parseAddr dst, ctr.toNat!, if ref == "-" then none else ref.toNat?, parseCls cls, ack == "1", fn.toNat!⟩
-      let (w', outs) := processCmd w p.toNat! d
-      let ws := if w'.written.length > w.written.length then " W" else ""
-      (w', (if outs.isEmpty then "-" else "; ".intercalate (outs.map showOut)) ++ ws)
-    | ["reset"] => (initW, "reset")
-    | _ => (w, "bad-op")
+  let toks := (line.trimAscii.toString.splitOn " ").filter (· ≠ "")
+  let (c', w', ans) : Conf × W × String := match toks with
+    | ["clear"] => ({}, initW {} {}, "ok")
+    | ["loc", ent, feat, typ, role, nm, fds, ops] =>
+      match parseRole role with
+      | some r =>
+        let c' := { c with loc := c.loc ++ [{ ent := parseEnt ent, feat := feat.toNat!, typ := typ.toNat!, role := r, fds := parseList fds, ops := parseOps ops, nm := nm == "1" }] }
+        (c', w, "ok")
+      | none => (c, w, "bad-op")
+    | ["rem", ent, feat, typ, role, fds] =>
+      match parseRole role with
+      | some r => ({ c with rem := c.rem ++ [{ ent := parseEnt ent, feat := feat.toNat!, fds := parseList fds, typ := typ.toNat!, role := r }] }, w, "ok")
+      | none => (c, w, "bad-op")
+    | ["reset", r, u, e] => (c, initW c { resultOnResult := flag r, unbindDisjunct := flag u, entRemovalAnyPeer := flag e }, "reset")
+    | ["binds"] => (c, w, if w.binds.isEmpty then "-" else "; ".intercalate (w.binds.map fun b => s!"{showAddr b.1}<-{b.2.1}:{showAddr b.2.2}"))
+    | ["subs"] => (c, w, if w.subs.isEmpty then "-" else "; ".intercalate (w.subs.map fun b => s!"{showAddr b.1}<-{b.2.1}:{showAddr b.2.2}"))
+    | _ =>
+      match parseOp toks with
+      | some op =>
+        let (w', outs) := step w op
+        (c, w', showOuts outs ++ (if w'.written.length > w.written.length then " W" else ""))
+      | none => (c, w, "bad-op")
   out.putStrLn ans
   out.flush
-  loop h out w'
-def main : IO Unit := do loop (← IO.getStdin) (← IO.getStdout) initW
+  loop h out c' w'
+
+def main : IO Unit := do loop (← IO.getStdin) (← IO.getStdout) {} (initW {} {})
